@@ -11,15 +11,16 @@ CHECKS = {
          "(basis equality, linearity, parity closure, min distance >= 6, burst rank) and validates every recorded "
          "crc()/crc_legacy() event against the spec",
          "Spec-level lemmas are exhaustive (they cover all 2^112 frames by linearity); the implementation is bound to "
-         "the spec on all unit/single-byte/two-bit frames, error-injected valid frames and seeded random/recorded "
-         "frames, each event judged by TLC.",
+         "the spec on all unit/single-byte/two-bit frames, error-injected valid frames, self-similar and codeword-prefix frames, "
+         "call histories on related frames (crc.seq) and seeded random/recorded frames, each event judged by TLC.",
          "Trusts TLC/TLA+ semantics and the linearity argument in spec/MC_C01.tla; code-side coverage is the driven inputs only.",
          "DESIGN.md section 5 C01"),
  "C02": ("TLA+ spec of frame formats and AP/PI overlays; TLC checks Icao(Build(df,addr,payload))=addr over DF 0..31 x both "
          "lengths and its state dump is replayed (upper/lower/mixed-case hex) into icao/adsb.icao/allcall.icao; events validated "
          "by TLC incl. a relational one-key-per-address monitor",
          "Exhaustive over DF x length x payload pattern x 26+ addresses at spec level; implementation bound on those frames in three "
-         "letter cases, recorded traffic (cross-checked against the file's address column) and seeded random frames.",
+         "letter cases, recorded traffic (cross-checked against the file's address column), self-similar / codeword-prefix frames and "
+         "seeded random frames (one in sixteen carrying a constant mined from the source under test).",
          "Trusts TLC and the spec's reading of Annex 10 AP/PI overlays (cross-checked against 12 000 recorded frames' address column).",
          "DESIGN.md section 5 C02"),
  "C07": ("TLA+ spec of the Annex 10 altitude codes (Gillham encoder built from the reflected-Gray definition, independent "
